@@ -6,6 +6,7 @@
 #include <string.h>
 
 #include "fiber_manager.h"
+#include "fiber_scheduler.h"
 #include "fmc.h"
 
 extern const char* fmc_wrap_end_check(void);
@@ -21,6 +22,20 @@ static inline int rt_start(void) {
   int n = fmc_param("N", 2);
   fmc_oracles((unsigned)fmc_param("oracles", FMC_O_HEAP | FMC_O_STACK | FMC_O_RECLAIM | FMC_O_OWNER));
   if (fiber_manager_init(n) != FIBER_SUCCESS) fmc_fail("fiber_manager_init failed");
+  // -Dfocusq=1: the run queues themselves (scheduler records, both deques of every kernel thread and
+  // their arrays) are declared as focus ranges too: with -focus, pre-emptions then also fall on
+  // run-queue operations (who pushes/pops/steals which fiber when)
+  if (fmc_param("focusq", 0)) {
+    for (int i = 0; i < n; i++) {
+      struct { wsd_work_stealing_deque_t *q1, *q2, *from, *to; }* sp = (void*)fiber_scheduler_for_thread(i);
+      fmc_focus(sp, sizeof *sp);
+      wsd_work_stealing_deque_t* q[2] = {sp->q1, sp->q2};
+      for (int k = 0; k < 2; k++) {
+        fmc_focus(q[k], sizeof *q[k]);
+        fmc_focus(q[k]->underlying_array, sizeof(wsd_circular_array_t) + sizeof(void*) * wsd_circular_array_size(q[k]->underlying_array));
+      }
+    }
+  }
   return n;
 }
 
